@@ -30,7 +30,14 @@ def main():
     meta = {"seed": sid, "property": prop, "repo_head": sh("git -C /repo rev-parse --short HEAD")[1].strip(), "ran": []}
     try:
         shutil.copy(demo, wt + "/zygo/zz_demo_test.go")
-        rc0, out0 = sh("go test -vet=off -count=1 ./zygo/", cwd=wt)
+        # SEED_LIGHT=1 (re-confirmation of a seed that was fully confirmed before): only the demonstration's own
+        # tests are run, not the whole suite three times
+        light = os.environ.get("SEED_LIGHT") == "1"
+        import re
+        names = re.findall(r"^func (Test\w+)\(", open(demo).read(), re.M)
+        only = " -run '^(%s)$'" % "|".join(names) if light and names else ""
+        meta["light_reconfirmation"] = light
+        rc0, out0 = sh("go test -vet=off -count=1%s ./zygo/" % only, cwd=wt)
         meta["clean_suite_plus_demo_passes"] = rc0 == 0
         os.remove(wt + "/zygo/zz_demo_test.go")
         rc, out = sh("git apply --3way %s" % patch, cwd=wt)
@@ -42,12 +49,12 @@ def main():
         else:
             sh("git reset -q", cwd=wt)
             sh("git diff > %s" % patch, cwd=wt)  # refresh against current HEAD
-            rc1, out1 = sh("go build ./zygo/ ./cmd/zygo/ && go test -vet=off -count=1 ./zygo/", cwd=wt)
+            rc1, out1 = sh("go build ./zygo/ ./cmd/zygo/" + ("" if light else " && go test -vet=off -count=1 ./zygo/"), cwd=wt)
             meta["patched_builds_and_suite_passes"] = rc1 == 0
             if rc1 != 0:
                 meta["suite_output"] = out1[-3000:]
             shutil.copy(demo, wt + "/zygo/zz_demo_test.go")
-            rc2, out2 = sh("go test -vet=off -count=1 ./zygo/", cwd=wt)
+            rc2, out2 = sh("go test -vet=off -count=1%s ./zygo/" % only, cwd=wt)
             meta["patched_demo_fails"] = rc2 != 0
             meta["demo_failure_excerpt"] = "\n".join([l for l in out2.splitlines() if "FAIL" in l or "want" in l or "got" in l][:12])
     finally:
@@ -66,7 +73,10 @@ def main():
             meta["ran"].append({"check": chk, "tier": "quick", "exit": 1 if detected else 0, "detected": detected,
                                 "violation_keys": keys[:8], "summary": summ, "wall_s": round(time.time() - t0, 1)})
     meta["detected_by"] = [r["check"] for r in meta["ran"] if r["detected"]]
-    json.dump(meta, open(os.path.join(dst, "meta.json"), "w"), indent=1)
+    if ok or not os.environ.get("SEED_KEEP_ON_FAIL") or not os.path.exists(os.path.join(dst, "meta.json")):
+        json.dump(meta, open(os.path.join(dst, "meta.json"), "w"), indent=1)
+    else:
+        print("NOT-RECONFIRMED (meta.json kept):", sid, {k: meta.get(k) for k in ("clean_suite_plus_demo_passes", "patch_applies", "patched_builds_and_suite_passes", "patched_demo_fails")})
     print(json.dumps({k: meta[k] for k in ("seed", "confirmed", "detected_by")}), [(r["check"], r["exit"], r["violation_keys"][:2]) for r in meta["ran"]])
 
 main()
